@@ -66,14 +66,20 @@ class B:
         rd.update(force)
         return rd
 
-    def build(self, root, render=None, pmode=True, store=None):
+    def build(self, root, render=None, pmode=True, store=None, registry=None):
         cid = f'c{self.cids}'
         self.cids += 1
         render = render if render is not None else self.render()
+        if registry:
+            render = dict(render)
+            render['name_suffix'] = f'_r{self.cids}'
         # name-mode chains live in their own data directory: readable links of a parameter-mode chain are named after
         # the config, i.e. exactly like name-mode result files
         store = store or ('main' if pmode else 'namemode')
-        self.op(op='build', cid=cid, root=root, render=render, pmode=pmode, store=store)
+        if registry:
+            self.op(op='build', cid=cid, root=root, render=render, pmode=pmode, store=store, registry=registry)
+        else:
+            self.op(op='build', cid=cid, root=root, render=render, pmode=pmode, store=store)
         self.chain_info[cid] = (root, render.get('outer_ns'))
         return cid
 
@@ -298,6 +304,7 @@ def gen_c04(r, knobs=None):
     world = gen.gen_world(r, kn)
     b = B(world, r)
     nproc = r.randint(1, 4)
+    shared_reg = r.random() < 0.3      # chains of a process built over one shared task registry (as MultiChain does)
     for pi in range(nproc):
         b.proc(hs=r.choice([0, 0, 1, 2]))
         live = []
@@ -312,7 +319,10 @@ def gen_c04(r, knobs=None):
                     # name mode under its documented contract (DESIGN.md A4): fixed config names, no context
                     pmode = False
                     rd = {'form': r.choice(['mem', 'json'] if not world.get('no_json') else ['mem', 'yaml']), 'perm': r.choice([0, 5])}
-                live.append(b.build(root, rd, pmode=pmode))
+                reg = 'R0' if pmode and shared_reg and r.random() < 0.6 else None
+                if reg:
+                    rd.pop('outer_ns', None)
+                live.append(b.build(root, rd, pmode=pmode, registry=reg))
             elif t < 0.7:
                 cid = r.choice(live)
                 b.req(cid, r.choice(b.names(cid)))
